@@ -1395,6 +1395,10 @@ func (e *Exec) lookup(x *ssa.Lookup) Val {
 	// nil map lookup is fine in Go: model nil map as empty domain
 	has := And(Neq(m, IntLit(0)), Select(e.mapDom(st, m, k, v), key))
 	val := Ite(has, Select(e.mapVal(st, m, k, v), key), zeroOfSort(v))
+	if v == SSlice {
+		// the same lookup in its function form (see MapGet): gives quantified facts about m[k][j] a ground term to match
+		e.assumeAlways(Eq(MapGet(Neq(m, IntLit(0)), e.mapDom(st, m, k, v), e.mapVal(st, m, k, v), key, k, v), val))
+	}
 	mt := x.X.Type().Underlying().(*types.Map)
 	e.assumeWFBound(val, mt.Elem(), e.boundFor(mapValComp(k, v)))
 	if x.CommaOk {
